@@ -23,7 +23,8 @@ class Conf:
         out = []
         for u in self.users:
             perms = [a.Permission(p, readable=r, writable=w) for p, r, w in u.perms] or None
-            out.append(a.User(u.login, u.password, base_path=base, home_path=u.home, permissions=perms))
+            out.append(a.User(u.login, u.password, base_path=base, home_path=u.home, permissions=perms,
+                              maximum_connections=u.maxconn))
         return out
 
     def new_model(self):
@@ -156,6 +157,79 @@ def step(rig, model, line, conf, i=0):
     return problems, obs
 
 
+LATE_MID = ["CWD d", "CWD ..", "PWD", "REST 2", "RNFR g", "TYPE A", "MKD m", "SYST"]
+
+
+def step_late(rig, model, verb_line, mid_line, conf, i=0):
+    """transfer verb sent *before* the data connection exists, another command while the server waits for it, then
+    the data connection: the transfer must use the path, permissions and offset as they were when the verb arrived"""
+    problems = []
+    s = rig.sessions[i]
+    verb = verb_line.partition(" ")[0].lower()
+    upload = verb in ("stor", "appe")
+    if not model.logged or not model.passive or model.data:
+        return [], {"codes": [], "skipped": True}
+    model.data = True                      # the model binds the transfer at verb time
+    exp = model.step(verb_line, conf.payload if upload else b"")
+    started = len(exp.replies) == 2 and exp.replies[0][:1] == "1"
+    if not started:
+        model.data = False
+    r = rig.ev(i, verb_line, advance=0) or []
+    codes = [c for c, _ in r]
+    if started and codes != [exp.replies[0]] and not M.matches((codes + ["000"])[0], exp.replies[0]):
+        problems.append({"kind": "late-data-mark", "line": verb_line, "got": codes, "expected": exp.replies[:1]})
+        return problems, {"codes": codes}
+    if not started:
+        if len(codes) != len(exp.replies) or not all(M.matches(c, p) for c, p in zip(codes, exp.replies)):
+            problems.append({"kind": "replies", "line": verb_line, "got": codes, "expected": exp.replies})
+        return problems, {"codes": codes}
+    exp_mid = model.step(mid_line)
+    r = rig.ev(i, mid_line, advance=0) or []
+    mid_codes = [c for c, _ in r]
+    if len(mid_codes) != len(exp_mid.replies) or not all(M.matches(c, p) for c, p in zip(mid_codes, exp_mid.replies)):
+        problems.append({"kind": "replies", "line": mid_line + " (while a transfer waits for its data connection)",
+                         "got": mid_codes, "expected": exp_mid.replies})
+        return problems, {"codes": codes + mid_codes}
+    fin = [c for c, _ in (rig.ev(i, "@data", advance=0) or [])]
+    if upload and s.data is not None:
+        fin += [c for c, _ in (rig.ev(i, "@dsend " + conf.payload.decode("latin-1"), advance=0) or [])]
+        fin += [c for c, _ in (rig.ev(i, "@dclose", advance=0) or [])]
+    rig.world.settle(0)
+    fin += [c for c, _ in s.ctl.take_replies()]
+    if not fin or not M.matches(fin[-1], exp.replies[1]) or len(fin) != 1:
+        problems.append({"kind": "late-data-completion", "line": verb_line, "mid": mid_line, "got": fin,
+                         "expected": exp.replies[1:]})
+        return problems, {"codes": codes + mid_codes + fin}
+    alts = getattr(exp, "data_alts", None)
+    if alts is not None:
+        got = s.data.received if s.data is not None else None
+        if got not in alts:
+            problems.append({"kind": "late-data-download", "line": verb_line, "mid": mid_line, "got": repr(got),
+                             "expected": [repr(x) for x in alts]})
+    if exp.names is not None:
+        got = parse_names(verb, s.data.received) if s.data is not None else None
+        import posixpath
+        lp = getattr(exp, "list_path", None)
+        now_names = sorted(posixpath.basename(c) for c in model.children(lp)) if lp and model.is_dir(lp) else []
+        # the directory is addressed as at verb time; its contents may be read at verb time or at transfer time
+        if got is None or (sorted(got) != sorted(exp.names) and sorted(got) != now_names):
+            problems.append({"kind": "late-data-listing", "line": verb_line, "mid": mid_line, "got": got,
+                             "expected": sorted(exp.names)})
+    snap = rig.snapshot()
+    tree_alts = getattr(exp, "tree_alts", None)
+    if tree_alts is not None and fin[-1].startswith("2"):
+        cur = snap.get(exp.upload_path)
+        if cur not in tree_alts:
+            problems.append({"kind": "late-data-stored", "line": verb_line, "mid": mid_line, "got": repr(cur),
+                             "where": exp.upload_path, "expected": [repr(x) for x in tree_alts]})
+        if cur is not None:
+            model.tree[exp.upload_path] = cur
+    if snap != model.tree and not problems:
+        problems.append({"kind": "tree", "line": verb_line + " | " + mid_line, "got": sorted(snap), "model": sorted(model.tree)})
+        model.tree = dict(snap)
+    return problems, {"codes": codes + mid_codes + fin}
+
+
 def run_history(hist, conf, chooser=None, spy=None, stop_at_problem=True):
     rig = conf.new_rig(chooser=chooser, spy=spy)
     model = conf.new_model()
@@ -164,7 +238,11 @@ def run_history(hist, conf, chooser=None, spy=None, stop_at_problem=True):
     try:
         rig.ev(0, "@connect")
         for k, line in enumerate(hist):
-            pr, obs = step(rig, model, line, conf)
+            if line.startswith("LATE:"):
+                v, _, m = line[5:].partition("|")
+                pr, obs = step_late(rig, model, v, m, conf)
+            else:
+                pr, obs = step(rig, model, line, conf)
             obs_all.append(obs["codes"])
             for p in pr:
                 p["history"] = list(hist[:k + 1])
